@@ -88,6 +88,34 @@ def c_sbrg(ctx, args):
     for g in heff.gs:
         if any(int(g[2 * i]) for i in range(n)):
             return {'kind': 'oracle', 'where': 'np:SBRG effective Hamiltonian has a non-diagonal term', 'observed': [int(v) for v in g], 'expected': 'I/Z strings only'}
+    if ctx.model is not None and not ctx.search:
+        # the Gallina model of the whole SBRG loop (Model/Sbrg.v, exact Gaussian rationals): same strings in the same order, same circuit; coefficients agree up to
+        # floating-point rounding (1/leading is not dyadic in general).  A decision of the loop that hinges on a near-tie cannot be compared: then the case is skipped.
+        from fractions import Fraction as Fr
+        obj = [2, n, [[[[Fr(t[1]).numerator, Fr(t[1]).denominator], [0, 1]], [t[0], 0]] for t in terms]]
+        mr = ctx.model.call('sbrg', [1, 10 ** 8], [1, 10 ** 10], obj)
+        if isinstance(mr, Err):
+            ctx.res.count('sbrg_model_error')
+        else:
+            ctx.res.count('sbrg_model_compared')
+            mheff, mgates = mr
+            mterms = [(t[1][0], complex(Fr(t[0][0][0], t[0][0][1]), Fr(t[0][1][0], t[0][1][1])) * (1j ** (t[1][1] % 4))) for t in mheff[2]]
+            iterms = [([int(v) for v in g], complex(c) * (1j ** (int(p) % 4))) for g, p, c in zip(heff.gs, heff.ps, heff.cs)]
+            same = len(mterms) == len(iterms) and all(a[0] == b[0] and abs(a[1] - b[1]) <= 1e-9 * max(1.0, abs(a[1])) for a, b in zip(mterms, iterms))
+            l = [[r[0], 0] for r in gen.identity_rows(n)]
+            o, ref = NP.PL(l), NP.PL(l)
+            circ.forward(o)
+            for qs, ge in mgates:
+                NP.mk_gate([qs, [0, ge]]).forward(ref)
+            same_circ = NP.oPL(o) == NP.oPL(ref)
+            if not (same and same_circ):
+                mags_ = sorted(abs(t[1]) for t in terms)
+                near_tie = any(b - a <= 1e-9 * b for a, b in zip(mags_, mags_[1:]))
+                if near_tie:
+                    ctx.res.count('sbrg_near_tie_skipped')
+                else:
+                    return {'kind': 'corr', 'where': 'np:SBRG vs the model of the loop (%s)' % ('heff' if not same else 'circuit'), 'observed': [[g, [c.real, c.imag]] for g, c in iterms][:8],
+                            'expected': [[g, [c.real, c.imag]] for g, c in mterms][:8]}
     if commuting:
         Hc = H.copy()
         circ.forward(Hc)
@@ -156,7 +184,11 @@ def run(ctx):
     do(ctx, 'sbrg', [2, [[[0, 0, 0, 0], 3.0], [[0, 1, 0, 1], 1.0], [[1, 0, 1, 0], 0.5]], True], nontrivial='w_id1', sample=True)
     do(ctx, 'sbrg', [2, [[[0, 0, 0, 0], 3.0], [[1, 1, 0, 1], 1.0], [[0, 1, 1, 1], 0.5]], True], nontrivial='w_id2')
     do(ctx, 'sbrg', [1, [[[0, 0], 2.0]], True], nontrivial='w_id3')
-    mags = [2.0 ** (-k) * (1 + j / 8.0) for k in range(0, 6) for j in range(8)]
+    # corpus: witnesses of the fixed empty-second-order defect (off-diagonal terms survived into heff)
+    do(ctx, 'sbrg', [1, [[[0, 1], 1.0], [[1, 0], 2.0 ** -20]], False], nontrivial='w_weak1', sample=True)
+    do(ctx, 'sbrg', [2, [[[0, 1, 0, 0], 1.0], [[1, 0, 1, 0], 2.0 ** -20], [[0, 0, 0, 1], 0.5]], False], nontrivial='w_weak2')
+    # magnitudes: comparable ones, and a widely spread family (weak couplings whose second-order terms fall below the tolerance)
+    mags = [2.0 ** (-k) * (1 + j / 8.0) for k in range(0, 6) for j in range(8)] + [2.0 ** (-k) for k in (12, 16, 20, 24, 30)]
     for it in range(int(80 * B)):
         n = rng.randint(2, 4)
         commuting = rng.random() < 0.6
